@@ -431,6 +431,41 @@ def same_class_and_model_params_block(rep, r, tier):
                                "a plain field", source=repr(v), parameter=pv, expected=repr(exp), got=repr(got))
                         break
 
+    # ---- (c) an optional destination field left unlinked (allow_unlinked_optional) in the MIDDLE of the parameter list:
+    #      every later field still receives its own source (by name, by link, from a parameter)
+    from adaptix.conversion import allow_unlinked_optional
+    Src = make_dataclass("Src", [("title", int), ("price", int), ("pages", int)])
+    layouts = {
+        "middle": [("title", int), ("skipped", int, field(default=-1)), ("price", int, field(default=0)), ("page_count", int, field(default=0))],
+        "first": [("skipped", int, field(default=-1)), ("title", int, field(default=0)), ("price", int, field(default=0)), ("page_count", int, field(default=0))],
+        "two": [("title", int), ("skipped", int, field(default=-1)), ("price", int, field(default=0)), ("skipped2", int, field(default=-2)),
+                ("page_count", int, field(default=0))],
+    }
+    for lname, spec_ in layouts.items():
+        Dst = make_dataclass("Dst", spec_)
+        skipped_fields = [f[0] for f in spec_ if f[0].startswith("skipped")]
+        recipe = [allow_unlinked_optional(*[P[Dst][f] for f in skipped_fields]), link(P[Src].pages, P[Dst].page_count)]
+        ns = {"Src": Src, "Dst": Dst}
+        exec("def plain(s: Src) -> Dst: ...\ndef with_param(s: Src, price: int) -> Dst: ...", ns)  # noqa: S102
+        for label, stub, args, want_price in (("plain", "plain", (), None), ("param", "with_param", (777,), 777)):
+            try:
+                conv = impl_converter(recipe=recipe)(ns[stub])
+            except Exception as e:  # noqa: BLE001
+                report(f"skipped-optional:creation:{lname}:{label}", f"creating the converter raises {type(e).__name__}: {str(e)[:160]}")
+                continue
+            sv = Src(r.randint(1, 9), r.randint(10, 19), r.randint(20, 29))
+            n += 1
+            try:
+                got = conv(sv, *args)
+            except Exception as e:  # noqa: BLE001
+                got = f"raises {type(e).__name__}: {str(e)[:80]}"
+            kw = {"title": sv.title, "price": sv.price if want_price is None else want_price, "page_count": sv.pages}
+            exp = Dst(**kw)
+            if got != exp:
+                report(f"skipped-optional:{lname}:{label}", "an unlinked optional destination field keeps its default and every other field "
+                       "receives its own source, wherever the skipped field stands in the parameter list", source=repr(sv), expected=repr(exp),
+                       got=repr(got))
+
     # ---- (b) model-typed extra parameters
     names = ["name", "id", "code"]
     for shared in names:
